@@ -16,6 +16,8 @@
 //!             h: the hash strings a program may name the archive by (n = lower case, t = an alias ending in "10",
 //!             u = upper case of n), hl: what a URL carries for them, d1/d2: the two directory levels of hl.n
 //!   cfg.vc    StreamingArchiveConfig::verify_checksums;  cfg.host/path/product/https: CdnResolutionConfig
+//! Family "cm" (cfg {urls:n}) drives cascette_cache::cdn::CdnClient (fetch_content / fetch_encoding / fetch_config /
+//! fetch_archive_range over the crate's private mock HTTP layer) and records its metrics after every call.
 //! Every GET the code issues is answered from the world according to the op's outcome script `outs` (one token per GET
 //! in arrival order, "ok" when the script is used up):  ok | short (last byte missing) | long (one byte more) |
 //! flip (last byte inverted) | junk (64 x 0x5a) | e503 | e404 | tmo;  a URL outside the world answers "nf" (404), a range
@@ -633,12 +635,58 @@ fn run_cf(p: &Value, em: &Emit) {
     }
 }
 
+// ------------------------------------------------------------------------------------------------
+// cm: cascette_cache::cdn::CdnClient - the books of the cache-side client (its HTTP layer is the crate's own private mock)
+// ------------------------------------------------------------------------------------------------
+fn run_cm(p: &Value, em: &Emit) {
+    use cascette_cache::cdn::{CdnClient as CacheCdnClient, CdnConfig as CacheCdnConfig};
+    use cascette_crypto::{ContentKey, EncodingKey};
+    let cfg = &p["cfg"];
+    em.ev(json!({"op": "new", "fam": "cm", "cfg": cfg}));
+    let rt = paused_rt();
+    let mut cc = CacheCdnConfig::default();
+    cc.cdn_urls = (0..u(cfg, "urls")).map(|i| format!("https://u{i}.example.com")).collect();
+    let client = CacheCdnClient::new(cc);
+    let mut seq = 0u64;
+    for op in p["ops"].as_array().expect("ops") {
+        em.begin(op);
+        seq += 1;
+        let r = guarded(|| {
+            let r = rt.block_on(async {
+                match s(op, "op") {
+                    "fc" => client.fetch_content(ContentKey::from_data(s(op, "key").as_bytes())).await,
+                    "fe" => client.fetch_encoding(EncodingKey::from_data(s(op, "key").as_bytes())).await,
+                    "fg" => client.fetch_config(s(op, "hash")).await,
+                    "fr" => client.fetch_archive_range(s(op, "name"), u(op, "off"), u(op, "len") as u32).await,
+                    other => panic!("driver: cm op {other}"),
+                }
+            });
+            match r {
+                Ok(bts) => json!({"kind": "Ok", "len": bts.len()}),
+                Err(e) => json!({"kind": "Err", "err": format!("{e}").chars().take(80).collect::<String>()}),
+            }
+        });
+        let obs = guarded(|| match client.metrics() {
+            Ok(m) => json!({"t": m.total_requests.min(1 << 30), "s": m.successful_requests.min(1 << 30), "f": m.failed_requests.min(1 << 30),
+                            "b": m.bytes_downloaded.min(1 << 30), "r": m.total_retries.min(1 << 30)}),
+            Err(e) => json!({"err": format!("{e}")}),
+        })
+        .unwrap_or_else(|m| json!({"panic": m}));
+        let mut ev = op.as_object().expect("op").clone();
+        ev.insert("seq".into(), json!(seq));
+        ev.insert("res".into(), r.unwrap_or_else(panic_res));
+        ev.insert("obs".into(), obs);
+        em.ev(Value::Object(ev));
+    }
+}
+
 fn run_program(p: &Value, em: &Emit) {
     match s(p, "fam") {
         "rd" => run_rd(p, em),
         "rs" => run_rs(p, em),
         "bt" => run_bt(p, em),
         "cf" => run_cf(p, em),
+        "cm" => run_cm(p, em),
         other => panic!("driver: family {other}"),
     }
 }
@@ -738,6 +786,21 @@ fn rand_program(r: &mut Rng) -> Value {
     let cfg = rand_world(r);
     let na = cfg["arcs"].as_array().expect("arcs").len() as u64;
     let keys: Vec<u64> = cfg["keys"].as_array().expect("keys").iter().map(|k| k["k"].as_u64().expect("k")).collect();
+    if r.chance(1, 12) {
+        let mut ops = Vec::new();
+        for _ in 0..1 + r.below(8) {
+            ops.push(match r.below(4) {
+                0 => json!({"op": "fc", "key": *r.pick(&["k1", "k2"])}),
+                1 => json!({"op": "fe", "key": *r.pick(&["k1", "k2"])}),
+                2 => {
+                    let (h, hcl) = *r.pick(&[("abcd1234", "ok"), ("abc", "short"), ("", "short"), ("\u{e9}1ab", "short")]);
+                    json!({"op": "fg", "hash": h, "hcl": hcl})
+                }
+                _ => json!({"op": "fr", "name": "ab/cd/abcd.data", "off": r.below(100), "len": r.below(40)}),
+            });
+        }
+        return json!({"fam": "cm", "cfg": {"urls": r.below(3)}, "ops": ops});
+    }
     let fam = *r.pick(&["rd", "rd", "rs", "rs", "rs", "bt"]);
     let mut ops = Vec::new();
     match fam {
@@ -766,8 +829,15 @@ fn rand_program(r: &mut Rng) -> Value {
                     4 | 5 => json!({"op": "rc", "k": *r.pick(&keys), "ks": r.chance(1, 2), "outs": rand_outs(r, 1, false)}),
                     6 => json!({"op": "rm", "reqs": rand_reqs(r, &cfg), "ks": false, "outs": rand_outs(r, 3, false)}),
                     7 | 8 => {
+                        // one spelling per archive and list: the GETs for "n" and "u" of one archive cannot be told apart
                         let n = r.below(4);
-                        let list: Vec<Value> = (0..n).map(|_| json!({"a": 1 + r.below(na), "hv": *r.pick(&["n", "n", "n", "u", "t", "short"])})).collect();
+                        let hvs: Vec<&str> = (0..na).map(|_| *r.pick(&["n", "n", "n", "u", "t", "short"])).collect();
+                        let list: Vec<Value> = (0..n)
+                            .map(|_| {
+                                let a = 1 + r.below(na);
+                                json!({"a": a, "hv": hvs[a as usize - 1]})
+                            })
+                            .collect();
                         json!({"op": "pl", "as": list, "tok": *r.pick(&["none", "none", "live", "cancelled"]), "simple": r.chance(1, 3), "outs": rand_outs(r, n, true)})
                     }
                     9 => json!({"op": *r.pick(&["cc", "sd"])}),
